@@ -75,6 +75,7 @@ class _Facts(ast.NodeVisitor):
         self.bound_all = set()
         self.read_any = set()
         self.idents = set()
+        self.nested_kinds = {}   # name -> kinds of nested scopes that bind it: function | lambda | class | comp | nonlocal
 
     @property
     def cur(self):
@@ -92,7 +93,10 @@ class _Facts(ast.NodeVisitor):
         self.bound_all.add(name)
         if self.comp:
             self.comp[-1].add(name)         # stores inside a comprehension are its targets, not scope bindings
+            self.nested_kinds.setdefault(name, set()).add('comp')
             return
+        if len(self.stack) > 1:
+            self.nested_kinds.setdefault(name, set()).add(self.cur.kind)
         self.cur.bound.add(name)
 
     def _leave(self, child):
@@ -131,6 +135,8 @@ class _Facts(ast.NodeVisitor):
             self.cur.read.add(n)
             self.cur.bound.add(n)
             self.bound_all.add(n)
+            if len(self.stack) > 1:
+                self.nested_kinds.setdefault(n, set()).add('nonlocal')
 
     def visit_alias(self, node):
         n = node.asname if node.asname else node.name.split('.')[0]
@@ -143,13 +149,18 @@ class _Facts(ast.NodeVisitor):
             self.idents.add(a.arg)
             self.bound_all.add(a.arg)
             self.cur.bound.add(a.arg)
+            if len(self.stack) > 1:
+                # parameters of nested functions LEAK into the enclosing scope's `bound` on the pinned tree (activity.visit_arg
+                # ignores _track_annotations_only; C08 finding): the enclosing block then re-initialises the name
+                self.nested_kinds.setdefault(a.arg, set()).add('param')
 
     def _function(self, node, is_lambda):
-        if not is_lambda:
-            for d in node.decorator_list:
+        if self.stack:       # decorators and defaults are evaluated in the ENCLOSING scope (none when this is the root)
+            if not is_lambda:
+                for d in node.decorator_list:
+                    self.visit(d)
+            for d in node.args.defaults + [k for k in node.args.kw_defaults if k is not None]:
                 self.visit(d)
-        for d in node.args.defaults + [k for k in node.args.kw_defaults if k is not None]:
-            self.visit(d)
         if not is_lambda:
             self.idents.add(node.name)
             if self.stack:
@@ -289,7 +300,11 @@ def user_fn_facts(source, fname, lambda_name='lam'):
     star, kw = call_shapes(fn)
     return {'name': lambda_name if is_lambda else fname, 'bound': sorted(v.bound_all), 'read': sorted(read),
             'readLocal': sorted(v.read_any - read), 'free': sorted(_free_names(source, fname, is_lambda)),
-            'idents': sorted(v.idents - {fname} | (v.idents & read)), 'starCalls': star, 'kwCalls': kw}
+            'idents': sorted(v.idents - {fname} | (v.idents & read)), 'starCalls': star, 'kwCalls': kw,
+            # read only inside nested DEFs that bind it as a plain local (not a parameter): the outer generated name and that
+            # local are different variables (no sharing through nonlocal, no capture as in lambdas / comprehensions)
+            'nestedDefOnly': [] if is_lambda else sorted(x for x in (v.read_any - read) if v.nested_kinds.get(x, set()) <= {'function'}
+                                                          and v.nested_kinds.get(x))}
 
 
 def call_shapes(fn):
@@ -446,13 +461,45 @@ ROLES = ['assigned_only', 'assigned_only_in_loop', 'read_only_global', 'paramete
          'closure_nonlocal', 'nested_function_called', 'nested_function_uncalled', 'loop_target_read', 'loop_target_unread',
          'nested_parameter', 'lambda_parameter', 'comprehension_target', 'nonlocal_in_nested', 'with_target', 'import_alias',
          'function_name', 'late_global', 'loop_var_modified', 'two_locals_numbered', 'local_in_nested_def_loop',
-         'attribute_name', 'keyword_name', 'bound_with_star_call', 'bound_with_keyword_call', 'parameter_with_star_and_keyword_call']
+         'attribute_name', 'keyword_name', 'bound_with_star_call', 'bound_with_keyword_call', 'parameter_with_star_and_keyword_call',
+         # the word is bound by the outer function but MENTIONED ONLY inside a nested scope, in every position kind
+         'nested_only_value', 'nested_only_annotation_and_value', 'nested_only_annotation', 'nested_only_default',
+         'nested_only_decorator', 'nested_only_keyword_value', 'nested_keyword_name', 'lambda_only_value', 'class_body_only_value',
+         'comprehension_only_value',
+         # requests separated by scopes with different user names
+         'outer_plain_loop_then_nested_local_loop', 'outer_plain_while_then_nested_local_while', 'sibling_nested_functions']
+
+NESTED_ONLY = {
+    # role: (statements at the START of the function binding the word, statements inserted later that mention it only in a nested scope)
+    'nested_only_value': ("{W} = 3", "def kq_g(kq_v):\n    return tr('nv', {W} + kq_v)\ntr('nvc', kq_g(1))"),
+    'nested_only_annotation_and_value': ("{W} = int", "def kq_g(kq_v):\n    kq_o: {W} = {W}(kq_v)\n    return kq_o\ntr('nav', kq_g(2))"),
+    'nested_only_annotation': ("{W} = int", "def kq_g(kq_v):\n    kq_o: {W} = kq_v\n    return kq_o\ntr('na', kq_g(2))"),
+    'nested_only_default': ("{W} = 3", "def kq_g(kq_v={W}):\n    return kq_v\ntr('nd', kq_g())"),
+    'nested_only_decorator': ("def kq_id(kq_f):\n    return kq_f\n{W} = kq_id", "@{W}\ndef kq_g():\n    return 5\ntr('ndc', kq_g())"),
+    'nested_only_keyword_value': ("{W} = 3", "def kq_g():\n    return cm(tag={W}).tag\ntr('nkv', kq_g())"),
+    'nested_keyword_name': ("kq_u = 0", "def kq_g():\n    return dict({W}=2)['{W}']\ntr('nkn', kq_g())"),
+    'lambda_only_value': ("{W} = 3", "kq_l = lambda kq_v: tr('lv', {W} + kq_v)\ntr('lvc', kq_l(1))"),
+    'class_body_only_value': ("{W} = 3", "class kq_C(object):\n    kq_a = {W}\ntr('cb', kq_C.kq_a)"),
+    'comprehension_only_value': ("{W} = 3", "tr('cv', [{W} + kq_q for kq_q in (1, 2)])"),
+}
+SEPARATED = {
+    'outer_plain_loop_then_nested_local_loop':
+        "for kq_a in range(2):\n    tr('ol', kq_a)\ndef kq_h(kq_p):\n    {W} = kq_p\n    for kq_i in range(4):\n        if kq_i > {W}:\n            break\n"
+        "        if kq_i == 0:\n            continue\n        {W} = {W} + 1\n    return {W}\ntr('nh', kq_h(1))",
+    'outer_plain_while_then_nested_local_while':
+        "kq_a = 0\nwhile kq_a < 2:\n    kq_a += 1\ndef kq_h(kq_p):\n    {W} = kq_p\n    kq_i = 0\n    while kq_i < 4:\n        kq_i += 1\n        if kq_i > {W} + 1:\n            break\n"
+        "        if kq_i == 1:\n            continue\n        {W} = {W} + 1\n    return {W}\ntr('nhw', kq_h(1))",
+    'sibling_nested_functions':
+        "def kq_a(kq_p):\n    kq_s = 0\n    for kq_i in range(kq_p):\n        kq_s += kq_i\n    return kq_s\n"
+        "def kq_b(kq_p):\n    {W} = kq_p\n    for kq_i in range(4):\n        if kq_i > {W}:\n            break\n        if kq_i == 1:\n            continue\n"
+        "        {W} = {W} + 1\n    if {W} > 2:\n        return {W}\n    return {W} + 10\ntr('sib', kq_a(3), kq_b(1))",
+}
 
 # roles in which the word is read in the function's own blocks: the hypothesis of C11_disjoint_partial holds for it
 READ_ROLES = {'read_only_global', 'parameter', 'local', 'global_var', 'closure_free_var', 'closure_nonlocal',
               'nested_function_called', 'loop_target_read', 'loop_var_modified', 'two_locals_numbered',
               'local_in_nested_def_loop', 'attribute_name', 'keyword_name', 'bound_with_star_call', 'bound_with_keyword_call',
-              'parameter_with_star_and_keyword_call'}
+              'parameter_with_star_and_keyword_call'} | set(NESTED_ONLY)
 
 
 def make_variant(prog_json, role, word, rng):
@@ -548,6 +595,12 @@ def make_variant(prog_json, role, word, rng):
                                % (word, word, word)), rng)
     elif role == 'keyword_name':
         ok = _insert(fn, _stmt("tr('kw', dict(%s=2)['%s'])" % (word, word)), rng)
+    elif role in NESTED_ONLY:
+        head, later = NESTED_ONLY[role]
+        ok = _insert(fn, _stmt(later.replace('{W}', word)), rng)
+        _insert(fn, _stmt(head.replace('{W}', word)), rng, at_start=True)
+    elif role in SEPARATED:
+        ok = _insert(fn, _stmt(SEPARATED[role].replace('{W}', word)), rng)
     elif role == 'bound_with_star_call':
         # call_trees.py lowers f(a, *r) to (a,) + tuple(r): the builtin is referenced by bare name
         ok = _insert(fn, _stmt("kq_t = (1, 2)\n%s = 3\ntr('sc', %s, *kq_t)" % (word, word)), rng)
@@ -748,6 +801,139 @@ def eval_case(ws, case, max_runs=12):
     finally:
         ws.unload(mod)
     return res
+
+
+def _visible_in(U):
+    """Identifiers visible in the scope of function node U: every identifier of its own text (lambda / comprehension
+    internals included), the names of the functions / classes it defines and the FREE names of those (not their locals)."""
+    out = set(a.arg for a in U.args.posonlyargs + U.args.args + U.args.kwonlyargs)
+    for a in (U.args.vararg, U.args.kwarg):
+        if a is not None:
+            out.add(a.arg)
+
+    def rec(n):
+        for ch in ast.iter_child_nodes(n):
+            if isinstance(ch, (ast.FunctionDef, ast.AsyncFunctionDef)):
+                out.add(ch.name)
+                for d in ch.decorator_list + ch.args.defaults + [k for k in ch.args.kw_defaults if k is not None]:
+                    wrap = ast.Expr(d)
+                    rec(wrap)
+                v = _Facts()
+                sc = v._function(copy.deepcopy(ch), False)
+                out.update(sc.read - sc.bound)
+                continue
+            if isinstance(ch, ast.Name):
+                out.add(ch.id)
+            elif isinstance(ch, ast.arg):
+                out.add(ch.arg)
+            elif isinstance(ch, ast.ClassDef):
+                out.add(ch.name)
+            elif isinstance(ch, (ast.Global, ast.Nonlocal)):
+                out.update(ch.names)
+            elif isinstance(ch, ast.alias):
+                out.add((ch.asname or ch.name).split('.')[0])
+            rec(ch)
+    for st in U.body:
+        rec(ast.Module(body=[st], type_ignores=[]))
+    return out
+
+
+def _user_defs(fn):
+    """path (tuple of def names below the converted function) -> FunctionDef, for paths that are unique."""
+    out, dup = {}, set()
+
+    def rec(n, path):
+        for ch in ast.iter_child_nodes(n):
+            if isinstance(ch, (ast.FunctionDef, ast.AsyncFunctionDef)):
+                p = path + (ch.name,)
+                if p in out:
+                    dup.add(p)
+                out[p] = ch
+                rec(ch, p)
+            else:
+                rec(ch, path)
+    rec(fn, ())
+    return {p: n for p, n in out.items() if not any(p[:k] in dup for k in range(1, len(p) + 1))}
+
+
+def _conv_counts(final_source, source, fname):
+    """{path of user defs: Counter of identifier occurrences} in the converted code; occurrences inside a nested USER def
+    count for that def, occurrences inside generated helper functions count for the user function they were generated in."""
+    import collections
+    try:
+        ctree, otree = ast.parse(final_source), ast.parse(source)
+    except SyntaxError:
+        return None
+    ctop = next((n for n in ctree.body if isinstance(n, ast.FunctionDef)), None)
+    fn, _ = _find_function(otree, fname)
+    if ctop is None or fn is None or not isinstance(fn, ast.FunctionDef):
+        return None
+    odefs = _user_defs(fn)
+    counts = {}
+
+    def rec(n, path):
+        for ch in ast.iter_child_nodes(n):
+            c = counts.setdefault(path, collections.Counter())
+            if isinstance(ch, (ast.FunctionDef, ast.AsyncFunctionDef)):
+                c[ch.name] += 1
+                rec(ch, path + (ch.name,) if path + (ch.name,) in odefs else path)
+                continue
+            if isinstance(ch, ast.Name):
+                c[ch.id] += 1
+            elif isinstance(ch, ast.arg):
+                c[ch.arg] += 1
+            elif isinstance(ch, (ast.Global, ast.Nonlocal)):
+                for x in ch.names:
+                    c[x] += 1
+            rec(ch, path)
+    rec(ctop, ())
+    return counts, odefs, fn
+
+
+def use_site_clashes(ctrl_case, ctrl_r, case, r):
+    """Oracle (iv): each generated name must be fresh w.r.t. the identifiers visible IN THE SCOPE WHERE IT IS USED.
+
+    The control variant differs from the adversarial one only by the word (NEUTRAL vs W), so inside every user function U
+    the converted code of the control contains exactly the occurrences of NEUTRAL that stem from the user's own uses of the
+    word (however often the converter duplicates them - that does not depend on the spelling).  If the converted
+    adversarial code has MORE occurrences of W inside U than the control has of NEUTRAL, generated code uses W in U; that is
+    a clash when W is visible in the original U.  Counting is insensitive to the converter's name-sorted orderings.
+    Returns [[path, name, facts of U]]; None when the two conversions cannot be compared."""
+    if not ctrl_r.get('final_source') or not r.get('final_source'):
+        return []
+    word = case.get('word')
+    a = _conv_counts(r['final_source'], case['source'], case['fname'])
+    c = _conv_counts(ctrl_r['final_source'], ctrl_case['source'], ctrl_case['fname'])
+    if a is None or c is None:
+        return None
+    acounts, aodefs, afn = a
+    ccounts = c[0]
+    out = []
+    pairs = [(word, NEUTRAL), (word + '_1', NEUTRAL + '_1')]
+
+    def ctrl_path(path):
+        return tuple(NEUTRAL if x == word else (NEUTRAL + '_1' if x == word + '_1' else x) for x in path)
+    for path, cnt in sorted(acounts.items()):
+        U = afn if not path else aodefs.get(path)
+        if U is None:
+            continue
+        cc = ccounts.get(ctrl_path(path))
+        if cc is None:
+            return None
+        vis = None
+        for w, n in pairs:
+            if cnt.get(w, 0) > cc.get(n, 0):
+                if vis is None:
+                    vis = _visible_in(U)
+                if w in vis:
+                    v = _Facts()
+                    sc = v._function(copy.deepcopy(U), False)
+                    star, kw = call_shapes(U)
+                    fu = {'name': U.name, 'bound': sorted(v.bound_all), 'read': sorted(sc.read), 'readLocal': sorted(v.read_any - sc.read),
+                          'free': sorted(sc.read - sc.bound), 'idents': sorted(v.idents), 'starCalls': star, 'kwCalls': kw,
+                          'nestedDefOnly': sorted(x for x in (v.read_any - sc.read) if v.nested_kinds.get(x) and v.nested_kinds[x] <= {'function'})}
+                    out.append(['/'.join(path) or '<top>', w, fu])
+    return out
 
 
 def variable_idents(source, fname):
